@@ -10,6 +10,8 @@
 import Acra.Model.NPD
 import Acra.Lemmas.Bits
 import Acra.Lemmas.NPDWalk
+import Acra.Lemmas.NPDFits
+import Acra.Lemmas.ReviewC09Loop
 namespace Acra.Props.C09
 open Acra.Py Acra.Model.NPD Acra.Gen.NPD Acra.Lemmas.Bits Acra.Lemmas.NPD Acra.Lemmas.Walk
 
@@ -221,5 +223,169 @@ example : (Seg.unpackBase (Seg.fresh .base) [0,0,0,1, 0,12, 0,0, 1,2,3,4]).2 = .
     (Seg.unpackBase (Seg.fresh .base) [0,0,0,1, 0,12, 0,0, 1,2,3,4]).1.payload = [1,2,3,4] ∧
     (Seg.unpackBase (Seg.fresh .base) [0,0,0,1, 0,12, 0,0, 1,2,3,4]).1.segmentlen = 12 := ⟨rfl, rfl, rfl⟩
 example : (Seg.unpackBase (Seg.fresh .base) [0,0,0,1, 0,12, 0]).2 = .error .struct := by rfl
+
+/-! ### the acceptance condition with a declarative segment walk (`FitsSegs`, Acra.Lemmas.NPDFits)
+
+  `NPD_accepts_iff` above speaks of `SegWalk`, an instance of the generic `Walk` over `SegOk` / `segAdvance`, which in turn
+  mention `segPayload` (a `slice`) and the typed-header predicate on that slice.  `FitsSegs k rem` says the same on the raw
+  bytes, in the style of `FitsM` / `FitsQ` / `FitsBlocks`: at each position the 8-byte segment header is complete, the
+  typed header of class `k` lies inside both the declared length and the bytes that remain (`TypedFits`: nothing for
+  NPDSegment / PCMPacketizer / A429Segment, 12 ≤ d ∧ 12 ≤ rest for ACQ and MIL-STD-1553, 10 + sync count ≤ d, rest for
+  RS-232), and the next position lies after `max 8 (min d rest)` rounded up to four. -/
+
+/-- one step of the declarative walk, spelled out -/
+theorem FitsSegs_iff (k : Kind) (rem : Bytes) :
+    FitsSegs k rem ↔ rem = [] ∨ (8 ≤ rem.length ∧ TypedFits k rem ∧
+      FitsSegs k (rem.drop (roundUp4 (max 8 (min (declaredSegLen rem) rem.length))))) := by
+  constructor
+  · intro h
+    cases h with
+    | done => exact Or.inl rfl
+    | seg _ h8 ht hn => exact Or.inr ⟨h8, ht, hn⟩
+  · rintro (rfl | ⟨h8, ht, hn⟩)
+    · exact .done
+    · exact .seg rem h8 ht hn
+
+/-- per-kind reading of `TypedFits` (the typed-header demand of each segment class, on the bytes) -/
+theorem TypedFits_plain (rem : Bytes) : TypedFits .base rem ∧ TypedFits .pcmpkt rem ∧ TypedFits .a429 rem :=
+  ⟨trivial, trivial, trivial⟩
+theorem TypedFits_acq (rem : Bytes) : TypedFits .acq rem ↔ 12 ≤ declaredSegLen rem ∧ 12 ≤ rem.length := Iff.rfl
+theorem TypedFits_mil1553 (rem : Bytes) : TypedFits .mil1553 rem ↔ 12 ≤ declaredSegLen rem ∧ 12 ≤ rem.length := Iff.rfl
+theorem TypedFits_rs232 (rem : Bytes) :
+    TypedFits .rs232 rem ↔ 10 + beNat ((rem.drop 8).take 2) % 8 ≤ declaredSegLen rem ∧
+      10 + beNat ((rem.drop 8).take 2) % 8 ≤ rem.length := Iff.rfl
+
+/-- … and each is exactly what the segment class's `unpack` demands: a segment of class `k` at the front of `rem`
+    is accepted iff its header is complete and `TypedFits k rem` -/
+theorem Segment_ok_iff_fits (k : Kind) (rem : Bytes) :
+    (∃ g r, Seg.unpack (Seg.fresh k) rem = (g, .ok r)) ↔ 8 ≤ rem.length ∧ TypedFits k rem := by
+  rw [Seg_unpack_ok_iff, segOk_iff_fits]
+
+/-- NPD accepts a buffer exactly when it holds the 20-byte header, the declared total length (in 32-bit words)
+    equals the real length, and the segment area after the declared header length FITS: a chain of complete
+    segment headers (with complete typed headers) walked by the declared lengths.  Nothing on the right-hand
+    side refers to the decoder model. -/
+theorem NPD_accepts_iff_fits (t : State) (buf : Bytes) :
+    (unpack t buf).2 = .ok () ↔ 20 ≤ buf.length ∧ declaredWords buf * 4 = buf.length ∧
+      FitsSegs (kindOf (declaredType buf)) (buf.drop (declaredHdrlen buf * 4)) := by
+  rw [NPD_accepts_iff, fitsSegs_iff_walk]
+
+/-- the rejections, exactly: `struct.error` iff the 20-byte header is incomplete; a bare `Exception` iff the header is
+    complete and either the declared total length differs from the real one or the segment walk meets (with bytes
+    left) an incomplete segment header or a typed header that does not fit (`SegsReject`).  Nothing else is possible. -/
+theorem NPD_rejects_iff (t : State) (buf : Bytes) :
+    ((unpack t buf).2 = .error .struct ↔ buf.length < 20) ∧
+    ((unpack t buf).2 = .error .generic ↔ 20 ≤ buf.length ∧ (declaredWords buf * 4 ≠ buf.length ∨
+      SegsReject (kindOf (declaredType buf)) (buf.drop (declaredHdrlen buf * 4)))) ∧
+    ((unpack t buf).2 = .ok () ∨ (unpack t buf).2 = .error .struct ∨ (unpack t buf).2 = .error .generic) := by
+  by_cases h20 : 20 ≤ buf.length
+  · obtain ⟨cc, fl, sq, ds, mc, ts, hh⟩ := NPD_hdr buf h20
+    by_cases hl : declaredWords buf * 4 = buf.length
+    · have hloop := decSeg_loop_error_iff (kindOf (declaredType buf)) (buf.drop (declaredHdrlen buf * 4))
+      cases hd : decOff (decSeg (kindOf (declaredType buf))) moreNe (buf.drop (declaredHdrlen buf * 4))
+          ((buf.drop (declaredHdrlen buf * 4)).length + 1) 0 with
+      | ok gs =>
+        have hnr : ¬ SegsReject (kindOf (declaredType buf)) (buf.drop (declaredHdrlen buf * 4)) := by
+          intro hr
+          have := (hloop .struct).2 ⟨rfl, hr⟩
+          rw [hd] at this; cases this
+        have hr : (unpack t buf).2 = .ok () := by
+          simp only [declaredHdrlen] at hd
+          simp only [unpack, hh, and_F, hl, ne_eq, not_true_eq_false, if_false, hd]
+        rw [hr]
+        refine ⟨⟨fun h => (by cases h), fun h => (by omega)⟩, ⟨fun h => (by cases h), fun h => ?_⟩, Or.inl rfl⟩
+        rcases h.2 with h | h
+        · exact absurd hl h
+        · exact absurd h hnr
+      | error e =>
+        obtain ⟨rfl, hrej⟩ := (hloop e).1 hd
+        have hr : (unpack t buf).2 = .error .generic := by
+          simp only [declaredHdrlen] at hd
+          simp only [unpack, hh, and_F, hl, ne_eq, not_true_eq_false, if_false, hd]
+        rw [hr]
+        exact ⟨⟨fun h => (by cases h), fun h => (by omega)⟩, ⟨fun _ => ⟨h20, Or.inr hrej⟩, fun _ => rfl⟩, Or.inr (Or.inr rfl)⟩
+    · have hr := (NPD_reject_kinds t buf).2 h20 hl
+      rw [hr]
+      exact ⟨⟨fun h => (by cases h), fun h => (by omega)⟩, ⟨fun _ => ⟨h20, Or.inl hl⟩, fun _ => rfl⟩, Or.inr (Or.inr rfl)⟩
+  · have hr := (NPD_reject_kinds t buf).1 (by omega)
+    rw [hr]
+    exact ⟨⟨fun _ => (by omega), fun _ => rfl⟩, ⟨fun h => (by cases h), fun h => absurd h.1 h20⟩, Or.inr (Or.inl rfl)⟩
+
+/-- acceptance and `SegsReject` exclude each other; together with the length checks they exhaust all buffers -/
+theorem FitsSegs_xor_reject (k : Kind) (rem : Bytes) :
+    (FitsSegs k rem ∧ ¬ SegsReject k rem) ∨ (SegsReject k rem ∧ ¬ FitsSegs k rem) := fitsSegs_or_reject k rem
+
+/-- witnesses for `NPD_accepts_iff_fits`: the accepted 32-byte packet of `npdHdrW` (one plain segment, declared 12) -/
+example : FitsSegs .base [0,0,0,1, 0,12, 0,0, 1,2,3,4] := .seg _ (by decide) trivial .done
+example : 20 ≤ (npdHdrW 8 ++ [0,0,0,1, 0,12, 0,0, 1,2,3,4]).length ∧
+    declaredWords (npdHdrW 8 ++ [0,0,0,1, 0,12, 0,0, 1,2,3,4]) * 4 = (npdHdrW 8 ++ [0,0,0,1, 0,12, 0,0, 1,2,3,4]).length ∧
+    kindOf (declaredType (npdHdrW 8 ++ [0,0,0,1, 0,12, 0,0, 1,2,3,4])) = .base ∧
+    (npdHdrW 8 ++ [0,0,0,1, 0,12, 0,0, 1,2,3,4]).drop (declaredHdrlen (npdHdrW 8 ++ [0,0,0,1, 0,12, 0,0, 1,2,3,4]) * 4) =
+      [0,0,0,1, 0,12, 0,0, 1,2,3,4] := by decide
+/-- two segments with padding: declared 11 (3 data bytes + 1 pad), then declared 8; an ACQ segment with its 4 typed bytes;
+    an RS-232 segment announcing 2 sync bytes that are present (declared 12 = status word + 2 sync bytes) -/
+example : FitsSegs .base [0,0,0,1, 0,11, 0,0, 7,8,9,255,  0,0,0,2, 0,8, 0,0] :=
+  .seg _ (by decide) trivial (.seg _ (by decide) trivial .done)
+example : FitsSegs .acq [0,0,0,1, 0,12, 0,0, 5,0x80,0,0] := .seg _ (by decide) (by decide) .done
+example : FitsSegs .rs232 [0,0,0,1, 0,12, 0,0, 0,2,0xAA,0xBB] := .seg _ (by decide) (by decide) .done
+/-- rejected walks, one per constructor of `SegsReject`: 4 stray bytes after a complete segment (`later` then `short`);
+    an ACQ segment declaring 11 < 12 bytes; an ACQ segment declaring 12 with only 11 present; an RS-232 segment
+    announcing 3 sync bytes with 2 present -/
+example : SegsReject .base [0,0,0,1, 0,12, 0,0, 1,2,3,4,  0,0,0,1] :=
+  .later _ (by decide) trivial (.short _ (by decide) (by decide))
+example : SegsReject .acq [0,0,0,1, 0,11, 0,0, 5,0x80,0,0] := .typed _ (by decide) (by decide)
+example : SegsReject .acq [0,0,0,1, 0,12, 0,0, 5,0x80,0] := .typed _ (by decide) (by decide)
+example : SegsReject .rs232 [0,0,0,1, 0,12, 0,0, 0,3,0xAA,0xBB] := .typed _ (by decide) (by decide)
+/-- … and the decoder's verdicts on whole packets agree (data type 0xFF: plain; 36 bytes, 9 words, 4 stray bytes) -/
+example : (unpack fresh (npdHdrW 9 ++ [0,0,0,1, 0,12, 0,0, 1,2,3,4] ++ [0,0,0,1])).2 = .error .generic := by rfl
+/-- the F1 observation in this vocabulary: a segment declaring 100 bytes with 8 present FITS (the walk clamps) -/
+example : FitsSegs .base [0, 0, 0, 1, 0, 100, 0, 0] := .seg _ (by decide) trivial .done
+
+/-- what an accepted NPD packet returns, segment by segment (the packet-level counterpart of `NPDSegment_unpack_payload`;
+    `area` = the bytes after the declared header length): every segment object was decoded at some offset `o` of the
+    segment area where a complete 8-byte header stands, and holds exactly the bytes `area[o+8 : o+d]` for the length `d`
+    declared there — clamped at the end of the area, empty for `d < 8` — with `segmentlen` rewritten to 8 + that many
+    bytes.  So nothing that is not in the buffer is ever returned; but a declared length pointing past the end IS
+    accepted with a shorter payload (observation F1, notes/fti.md: the segment length is not among the checks). -/
+theorem NPD_accepted_every_segment (t : State) (buf : Bytes) (h : (unpack t buf).2 = .ok ()) :
+    ∀ g ∈ (unpack t buf).1.segments, ∃ o,
+      o + 8 ≤ (buf.drop (declaredHdrlen buf * 4)).length ∧
+      g.payload = slice ((buf.drop (declaredHdrlen buf * 4)).drop o) 8
+        (declaredSegLen ((buf.drop (declaredHdrlen buf * 4)).drop o)) ∧
+      g.segmentlen = max 8 (min (declaredSegLen ((buf.drop (declaredHdrlen buf * 4)).drop o))
+        ((buf.drop (declaredHdrlen buf * 4)).length - o)) ∧
+      g.payload.length + 8 = g.segmentlen := by
+  obtain ⟨h20, hl⟩ := NPD_accepted_length t buf h
+  obtain ⟨cc, fl, sq, ds, mc, ts, hh⟩ := NPD_hdr buf h20
+  revert h
+  simp only [unpack, hh, and_F, hl, ne_eq, not_true_eq_false, if_false, declaredHdrlen]
+  cases hd : decOff (decSeg (kindOf (declaredType buf))) moreNe (buf.drop (beNat (buf.take 1) % 16 * 4))
+      ((buf.drop (beNat (buf.take 1) % 16 * 4)).length + 1) 0 with
+  | error e => cases e <;> simp
+  | ok gs =>
+    simp only
+    intro _ g hg
+    have hw := Acra.Lemmas.ReviewC09.decOff_ok_walk _ _ _ _ _ _ hd
+    obtain ⟨o, n, _, _, hdec⟩ := Acra.Lemmas.ReviewC09.walk_mem _ _ _ _ _ hw g hg
+    simp only [decSeg] at hdec
+    split at hdec
+    · rename_i g' r hg'
+      simp only [Except.ok.injEq, Prod.mk.injEq] at hdec
+      obtain ⟨rfl, _⟩ := hdec
+      have hp := Seg_unpack_payload _ _ _ _ hg'
+      obtain ⟨hsl, h8⟩ := Seg_unpack_segmentlen _ _ _ _ hg'
+      simp only [List.length_drop] at h8
+      refine ⟨o, by simp only [List.length_drop]; omega, ?_, ?_, ?_⟩
+      · rw [hp, segPayload_eq]; rfl
+      · rw [hsl]; simp only [segLen, List.length_drop]; rfl
+      · rw [hp, hsl, segPayload_length _ (by simp only [List.length_drop]; omega)]
+        have := segLen_ge (List.drop o (List.drop (beNat (List.take 1 buf) % 16 * 4) buf))
+        omega
+    · cases hdec
+
+/-- witness: the accepted 32-byte packet returns one segment, payload = the 4 bytes after its header, `segmentlen` 12 -/
+example : (unpack fresh (npdHdrW 8 ++ [0,0,0,1, 0,12, 0,0, 1,2,3,4])).2 = .ok () ∧
+    (unpack fresh (npdHdrW 8 ++ [0,0,0,1, 0,12, 0,0, 1,2,3,4])).1.segments.map (fun g => (g.payload, g.segmentlen)) =
+      [([1,2,3,4], 12)] := ⟨rfl, rfl⟩
 
 end Acra.Props.C09
